@@ -36,3 +36,25 @@ add("C17",
     "contracts on the real functions; real code on symbolic knot values per joint shape (bounded in shape)")
 ENGINE_S += ["C02", "C04", "C17"]
 ENGINE_V += ["C01", "C02"]
+
+add("C05",
+    "Contracts on Curve.knot_remove / BaseCurve.update / Curve.fit_curve / LeastSquare.func2func: success => knot vector == old minus nodes and "
+    "2*max(1,L)*E - R positive semidefinite (E the code's error form, R the exact spec residual form: decides 'error <= tol => integral (C-D)^2 <= 2 tol max(1,L)' "
+    "for ALL control points and tolerances); exactly removable => only the success path is feasible and the coarse curve returns; refusal => state unchanged; "
+    "tolerance=None => interpolation at remaining knots; tolerance=0 => exact or refused. Concrete rational knot vectors, symbolic control points. "
+    "Rational curves: known finding D9. " + S_NOTE,
+    "DESIGN.md 5/C05", COMMON_TRUST + " Linalg.invert is run-time monitored (inverse @ A == I), not proved (A4).",
+    "contracts on the real functions; real code on symbolic control points over concrete knot vectors, fork on 'error > tolerance', exact LDL^T for the quadratic-form inequality (bounded in shape)")
+add("C07",
+    "Contract on Curve.split / Operations.split_curve / ImmutableKnotVector.split: piece count, clamped piece knot vectors, piece(u) == C(u) on every span "
+    "(polynomial and rational, symbolic knots / cuts / points / weights), operand unchanged; cut classes: open spans, knots, ends, repeated, unsorted, split(). "
+    "Join (A | B): see evidence (S-con). " + S_NOTE,
+    "DESIGN.md 5/C07", COMMON_TRUST,
+    "contracts on the real functions; real code on symbolic field elements per shape and cut class (bounded in shape)")
+add("C11",
+    "Contract on Curve.fit_curve / LeastSquare.spline2spline / func2func: the linear map P -> D is extracted exactly and checked against exact spec Gram matrices: "
+    "Gtt T == Gts (residual orthogonal to every target basis function), returned error == (1 or 1/2) x integral of squared residual as quadratic forms, PSD, "
+    "reproduction under containment, interpolation + constrained orthogonality with nodes; for all source control points at once. " + S_NOTE,
+    "DESIGN.md 5/C11", COMMON_TRUST + " Linalg.invert is run-time monitored (A4).",
+    "contracts on the real functions; real code on symbolic control points over concrete knot-vector pairs, exact rational matrix identities against formally integrated Cox-de Boor pieces (bounded in shape)")
+ENGINE_S += ["C05", "C07", "C11"]
